@@ -58,7 +58,26 @@ func condvarRules(c *Ctx, rule string) {
 		for _, f := range p.FuncsOfPkg(rel) {
 			if f.Signature.Recv() != nil && namedOf(f.Signature.Recv().Type()) == named && f.Synthetic == "" {
 				methods = append(methods, f)
+				// closures of the method (bodies run by a lock helper) belong to it
+				var nest func(g *ssa.Function)
+				nest = func(g *ssa.Function) {
+					for _, a := range g.AnonFuncs {
+						methods = append(methods, a)
+						nest(a)
+					}
+				}
+				nest(f)
 			}
+		}
+		// the object the method works on: its receiver, or the receiver captured by a closure of the method
+		isOwnerRoot := func(f *ssa.Function, root ssa.Value) bool {
+			if len(f.Params) > 0 && f.Signature.Recv() != nil && root == ssa.Value(f.Params[0]) {
+				return true
+			}
+			if fvr, ok := root.(*ssa.FreeVar); ok {
+				return namedOf(fvr.Type()) == named
+			}
+			return false
 		}
 		// derive predicate fields from wait loops and check they are in the frozen set
 		for _, f := range methods {
@@ -72,7 +91,7 @@ func condvarRules(c *Ctx, rule string) {
 					for _, in := range b.Instrs {
 						if fa, ok := in.(*ssa.FieldAddr); ok {
 							fv, base := fieldVar(fa)
-							if root, _ := fieldChain(base); len(f.Params) > 0 && root == ssa.Value(f.Params[0]) && fv != condF && namedOf(base.Type()) == named {
+							if root, _ := fieldChain(base); isOwnerRoot(f, root) && fv != condF && namedOf(base.Type()) == named {
 								if !preds[fv] && fv.Name() != "timeoutTimer" && fv.Name() != "wtTimeout" {
 									derived = append(derived, fv.Name())
 								}
@@ -108,7 +127,7 @@ func condvarRules(c *Ctx, rule string) {
 				switch x := i.(type) {
 				case *ssa.Store:
 					if fv, base := fieldVar(x.Addr); fv != nil && preds[fv] {
-						if root, _ := fieldChain(base); len(f.Params) > 0 && root == ssa.Value(f.Params[0]) {
+						if root, _ := fieldChain(base); isOwnerRoot(f, root) {
 							writes = append(writes, w{i, "store " + fv.Name()})
 						}
 					}
